@@ -38,7 +38,8 @@ class Proof:
                  loops=(), rules=None, expect=(), canaries=1, unwind=None, unwindset=None, kind='proof',
                  bound_note=None, cbmc_flags=None, drop_flags=(), timeout=600, mem_gb=24, defines=(),
                  functions=(), mutants=(), object_bits=8, solver='--sat-solver cadical', note='', extern_c=True,
-                 no_contract=False, plain=False, assumed=(), replay=None, partial_loops=False, dead_ok=(), frame_is_property=False, slice_formula=False, nondet_static=False, unwind_loops=()):
+                 no_contract=False, plain=False, assumed=(), replay=None, partial_loops=False, dead_ok=(), frame_is_property=False, slice_formula=False, nondet_static=False, unwind_loops=(), split=1):
+        self.split = split                            # >1: the obligations are partitioned into this many groups, one cbmc run per group (in parallel)
         self.unwind_loops = list(unwind_loops)        # [(function, ordinal of the loop in source order, bound)] -> --unwindset (ids resolved per run)
         self.nondet_static = nondet_static            # plain VC proofs: objects with static lifetime start with arbitrary values (cbmc --nondet-static)
         self.slice_formula = slice_formula            # cbmc --slice-formula (cone-of-influence reduction of the equation; sound)
@@ -131,6 +132,46 @@ def run(cmd, cwd, timeout, mem_gb=24, log=None):
     if log is not None:
         log.append({'cmd': ' '.join(cmd), 'rc': rc, 'secs': round(dt, 2)})
     return rc, out, err, dt
+
+
+def run_split(ccmd, cwd, proof, log):
+    """Partition the obligations of the instrumented program into proof.split groups and check each group in its own cbmc
+    process (cbmc --property id ... checks exactly the named obligations); the union of the groups is the full set, listed
+    by cbmc --show-properties with the same flags.  Returns a merged --json-ui document."""
+    import concurrent.futures
+    t0 = time.time()
+    base = [a for a in ccmd if a != '--trace']
+    rc, out, err, _ = run(base[:-1] + ['--show-properties', '--json-ui'] if base[-1] == '--json-ui' else base + ['--show-properties'], cwd, 600, proof.mem_gb, log=log)
+    ids = []
+    try:
+        for e in json.loads(out):
+            if isinstance(e, dict) and 'properties' in e:
+                ids = [p['name'] for p in e['properties']]
+    except Exception:
+        pass
+    if not ids:
+        return rc if rc else 1, out, 'cannot list the obligations: ' + err, time.time() - t0
+    groups = [ids[g::proof.split] for g in range(proof.split)]
+    groups = [g for g in groups if g]
+
+    def one(g):
+        args = list(ccmd)
+        for i in g:
+            args += ['--property', i]
+        return run(args, cwd, proof.timeout, proof.mem_gb, log=log)
+    merged, msgs, worst = [], [], 0
+    with concurrent.futures.ThreadPoolExecutor(max_workers=len(groups)) as ex:
+        for (rc, out, err, dt) in ex.map(one, groups):
+            if rc == -999:
+                return rc, out, err, time.time() - t0
+            results, m, status = parse_cbmc_json(out)
+            if results is None or (not results and rc not in (0, 10)):
+                return rc, out, err, time.time() - t0
+            merged += results
+            msgs += m
+            worst = max(worst, rc)
+    doc = [{'messageText': t} for t in msgs] + [{'result': merged}, {'cProverStatus': 'failure' if worst else 'success'}]
+    return worst, json.dumps(doc), '', time.time() - t0
 
 
 def symbol_table(gb, cwd):
@@ -336,11 +377,14 @@ def run_proof(proof, workroot, mutate=None, keep=False, quiet=False):
         for ob in [proof.object_bits] + [b for b in (10, 12, 14) if b > (proof.object_bits or 8)]:
             # the DFCC object sets scale with 2^object-bits, so the smallest sufficient value is used
             ccmd = ['cbmc', 'inst.gb'] + flags + (['--object-bits', str(ob)] if ob else []) + ['--json-ui', '--trace']
-            rc, out, err, dt = run(ccmd, cwd, proof.timeout, proof.mem_gb, log=log)
+            if proof.split > 1:
+                rc, out, err, dt = run_split(ccmd, cwd, proof, log)
+            else:
+                rc, out, err, dt = run(ccmd, cwd, proof.timeout, proof.mem_gb, log=log)
             if 'too many addressed objects' not in out:
                 break
         res['solver_s'] = round(dt, 2)
-        res['checker_cmd'] = ' '.join(cmd) + ' && ' + ' '.join(ccmd)
+        res['checker_cmd'] = ' '.join(cmd) + ' && ' + ' '.join(ccmd) + (' [obligations partitioned into %d groups, one run per group: --property <ids>]' % proof.split if proof.split > 1 else '')
         if rc == -999:
             raise Undecided('cbmc timeout after %ss' % proof.timeout)
         results, msgs, status = parse_cbmc_json(out)
